@@ -82,20 +82,19 @@ def rebin(x, d, sample=False):
         sliceobj1 = [slice(None)]*len(d0)
         sliceobj = [slice(None)]*len(d)
         if d[k] > d0[k]:
-            f = d0[k]/d[k]
             for i in range(d[k]):
-                p = f*i
-                fp = int(floor(p))
+                fp = (i*d0[k])//d[k]
+                frac = ((i*d0[k]) % d[k])/d[k]
                 sliceobj0[k] = slice(fp, fp + 1)
                 sliceobj[k] = slice(i, i + 1)
                 if sample:
                     r[tuple(sliceobj)] = xx[tuple(sliceobj0)]
                 else:
-                    if p < d0[k] - 1:
+                    if fp < d0[k] - 1:
                         sliceobj1[k] = slice(fp + 1, fp + 2)
                         rshape = r[tuple(sliceobj)].shape
                         r[tuple(sliceobj)] = (xx[tuple(sliceobj0)].reshape(rshape) +
-                                              (p - fp)*(xx[tuple(sliceobj1)] -
+                                              frac*(xx[tuple(sliceobj1)] -
                                                         xx[tuple(sliceobj0)]).reshape(rshape))
                     else:
                         r[tuple(sliceobj)] = xx[tuple(sliceobj0)]
